@@ -16,7 +16,7 @@ CFG = dict(
          "Non-trivial = at least one record was emitted; distinct by input line.",
     nontrivial=["records"],
     jobs=seeds(1, 4),
-    lean_files=["Trig", "Pipe", "PipeJudge", "C02", "C09", "Pipe1", "Pipe2", "Edge", "Level", "Auto", "Passes", "TrigIdx", "EdgeGlobal", "LevelGlobal", "AutoDense", "AutoGlobal", "PipeProj", "Pipe3", "EmtRecs", "Reconf", "SoundGlobal"],
+    lean_files=["Trig", "Pipe", "PipeJudge", "C02", "C09", "Pipe1", "Pipe2", "Edge", "Level", "Auto", "Passes", "TrigIdx", "EdgeGlobal", "LevelGlobal", "AutoDense", "AutoGlobal", "PipeProj", "Pipe3", "EmtRecs", "Reconf", "SoundGlobal", "Compose"],
     trusted_base=_PIPE_TB,
     assumptions=["auto delay enters the model as an integer number of samples computed with the code's own expression",
                  "the auto-gap theorem is for no veto (as the property says); with a veto only no-crash/in-range is proved and the oracle judges nothing about gaps"],
@@ -53,6 +53,7 @@ THEOREMS = [
     ("DastardV.Props.C02", "DastardV.C02.configureLengths_epoch"),
     ("DastardV.Lemmas.Reconf", "DastardV.Trig.runChan_prepend"),
     ("DastardV.Props.C02", "DastardV.C02.C02_source_level"),
+    ("DastardV.Lemmas.Compose", "DastardV.Compose.abaco_no_pulse_lost"),
     ("DastardV.Props.C02", "DastardV.C02.prepare_fresh"),
     ("DastardV.Lemmas.PipeProj", "DastardV.Pipe.runOps_chan"),
     ("DastardV.Props.C02", "DastardV.C02.C02_edge_only_sound"),
